@@ -743,6 +743,12 @@ pub fn explore_all(tier: Tier) -> PmResult {
     };
     let full = stmts(tier);
     res.n_stmts = full.len();
+    // every statement of the alphabets must at least PARSE (a syntax error would silently remove it)
+    for st in full.iter().chain(core_stmts().iter()) {
+        if let Err(e) = vrl::parser::parse(st) {
+            panic!("alphabet statement does not parse: `{st}`: {e:?}");
+        }
+    }
     let passes: Vec<(&str, Vec<String>, u32)> = if tier.thorough() {
         vec![("full alphabet", full, 2), ("core alphabet", core_stmts(), 4)]
     } else {
